@@ -119,6 +119,16 @@ func (value Value) Compare(other Value) int {
 		}
 
 	case TypeIDFloat:
+		// NaN is equal to itself and sorts before every other float, so that Compare stays a total preorder.
+		if valueNaN, otherNaN := value.Float != value.Float, other.Float != other.Float; valueNaN || otherNaN {
+			if valueNaN && otherNaN {
+				return 0
+			} else if valueNaN {
+				return -1
+			} else {
+				return 1
+			}
+		}
 		if value.Float < other.Float {
 			return -1
 		} else if value.Float > other.Float {
@@ -260,7 +270,14 @@ func (value Value) hash(hash uint64) uint64 {
 		hash = fnv1a.AddUint64(hash, uint64(value.Int))
 
 	case TypeIDFloat:
-		hash = fnv1a.AddUint64(hash, math.Float64bits(value.Float))
+		// Values which Compare as equal have to hash equally: use one bit pattern for all NaNs and one for both zeros.
+		float := value.Float
+		if float != float {
+			float = math.NaN()
+		} else if float == 0 {
+			float = 0
+		}
+		hash = fnv1a.AddUint64(hash, math.Float64bits(float))
 
 	case TypeIDBoolean:
 		if value.Boolean {
